@@ -442,6 +442,7 @@ type Derived struct {
 	BodyFails              bool
 	MimeTab                [][2]string // mime.TypeByExtension on every extension in the tree and the request path
 	Sniffed                string      // http.DetectContentType of the addressed file
+	WriteLimit             int         // > 0: no file can grow beyond that many bytes (RLIMIT_FSIZE) while the request is served
 }
 
 func optS(p *string) string {
@@ -456,7 +457,7 @@ func (d Derived) Sx() string {
 	for _, e := range d.MimeTab {
 		mt = append(mt, hx.L(hx.S(e[0]), hx.S(e[1])))
 	}
-	return hx.L("drv", d.DestKind, hx.S(d.DestPath), optS(d.DIfMatch), optS(d.DIfNoneMatch), d.PfForm, hx.I(d.Stamp), hx.S(d.DirTag), hx.B(d.BodyFails), hx.L(mt...), hx.S(d.Sniffed))
+	return hx.L("drv", d.DestKind, hx.S(d.DestPath), optS(d.DIfMatch), optS(d.DIfNoneMatch), d.PfForm, hx.I(d.Stamp), hx.S(d.DirTag), hx.B(d.BodyFails), hx.L(mt...), hx.S(d.Sniffed), hx.I(int64(d.WriteLimit)))
 }
 
 func decodeTag(h string) (out *string) {
